@@ -1,4 +1,5 @@
 import Afkak.Monitor.C12
+import Afkak.Consumer
 /-!
 # C12 — full-strength statements that are NOT obligations
 
@@ -7,6 +8,11 @@ import Afkak.Monitor.C12
   alterations "of the checksummed bytes" only, which is what `C12_burst` proves.  The extension is
   FALSE for a CRC stored in front of the data it covers; `C12_burst_any_position_counterexample`
   in `AfkakProps/C12.lean` proves the negation on a 27-byte message.
+* `C12_refetch_after_delivery`: the other half of the monitor `refetchOk`, on the consumer model — when
+  the cut set still held complete messages, they are delivered, the next fetch starts right after
+  the last of them and the buffer is unchanged.  Monitored on the real `Consumer`; on the model it
+  is a statement about message delivery (property C02's machinery), not proved here.
+  (`C12_refetch_model` proves the too-small half.)
 -/
 namespace Afkak.Props.C12.Open
 open Afkak.Crc32 Afkak.WireCost Afkak.C12 Afkak.Monitor.C12
@@ -15,5 +21,14 @@ def C12_burst_any_position : Prop :=
   ∀ (inner : List UInt8 → SetOut) (gz : Gz) (off : Int) (msg e : List UInt8) (k : Nat),
     crcOk msg = true → e.length = msg.length → nonzero e = true → burstWithin e k 32 = true →
     ∃ c, decodeMessage inner gz (some (xorBytes msg e)) off = .out [] (some .checksum) c 0
+
+open Afkak.Consumer in
+def C12_refetch_after_delivery : Prop :=
+  ∀ (cfg : Cfg) (inner : Ops) (k : Nat) (s : St) (m : Afkak.Consumer.Msg) (ms : List Afkak.Consumer.Msg),
+    s.startD = .pending → s.msgBlock = false → s.stopping = false → s.shuttingDown = false →
+    ((m :: ms).map (·.off)).Pairwise (· < ·) → s.fetchOffset ≤ m.off →
+    let s' := handleFetchResponse cfg inner k { msgs := m :: ms, tail := .done } s
+    refetchOk ((m :: ms).map (·.off)) (ms.length + 1) s.fetchOffset s'.fetchOffset s.bufferSize cfg.bufMax 1
+      (some s'.bufferSize) = true
 
 end Afkak.Props.C12.Open
